@@ -77,6 +77,19 @@ def r1(ctx: Ctx) -> None:
     ctx.require(len(classes) >= 4, "fewer agent classes constructing orders than confirmed by reading")
 
 
+def kw_term(call: Term, name: str, pos: int) -> Optional[Term]:
+    d = dict(call[3])
+    if name in d:
+        return d[name]
+    return call[2][pos] if len(call[2]) > pos else None
+
+
+def canon(c: Term):
+    from ..terms import canon_pred
+
+    return canon_pred(c)
+
+
 def _access_test(c: Term, pol: bool, mterm: Term) -> bool:
     """decision that the agent can access market `mterm` (a market object term)"""
     if not pol:
@@ -297,6 +310,19 @@ def r4(ctx: Ctx) -> None:
             base = pb[2]
             okb = (base[0] == "call" and key(base[1]) == "self.get_base_price") or key(base) == "self.target_market.get_market_price()"
             ctx.check(okb, f, f.node, "base price = mid of best quotes over accessible markets, else the target's market price", "self.get_base_price(markets) | self.target_market.get_market_price()", short(base)[:100])
+            if base[0] == "call" and key(base[1]) == "self.get_base_price":
+                # `accessible` is decided by get_base_price itself, at the time of the call: it is given all markets
+                from ..terms import normalise
+
+                arg = normalise(strip_ver(kw_term(base, "markets", 0) or NONE))
+                if arg == ("sym", "markets"):
+                    ctx.holds(f, f.node, "the base price looks at all markets the agent is given (accessibility is tested per call)", "get_base_price(markets=markets)", short(arg))
+                elif arg[0] == "comp" and len(arg[3]) == 1 and strip_ver(arg[3][0][1]) == ("sym", "markets") and arg[2] == ("bound", arg[3][0][0][0]) and all(_access_test(canon(c)[0], canon(c)[1], ("bound", arg[3][0][0][0])) for c in arg[3][0][2]):
+                    ctx.holds(f, f.node, "the base price looks at all accessible markets the agent is given", "markets filtered by the access test only", short(arg)[:100])
+                elif arg[0] == "comp" and strip_ver(arg[3][0][1]) == ("sym", "markets"):
+                    ctx.violated(f, f.node, "the base price looks at all accessible markets the agent is given", "get_base_price(markets=markets)", f"markets are pre-selected by {short(arg[3][0][2][0]) if arg[3][0][2] else '?'}: a list fixed elsewhere (e.g. at setup) is not `the markets the agent can access now`")
+                else:
+                    ctx.unrec(f, f.node, "the base price looks at all accessible markets the agent is given", "argument of get_base_price not understood", short(arg)[:100])
         for e in orders:
             ctx.check(key(strip_ver(kw(e, "market_id") or NONE)) == "self.target_market.market_id", f, e.node, "quotes go to the target market", "market_id=self.target_market.market_id", short(kw(e, "market_id")))
     ctx.require(n >= 1, f"{q}: no returning path")
@@ -437,3 +463,42 @@ def h2(ctx: Ctx) -> None:
     from .c17 import r2 as index_rule
 
     index_rule(ctx)
+
+
+@rule("C20.R7", "an FCN agent runs its strategy on every market it is given and can access: no market is left out for another reason", "T4 coverage of the market loop", floor=1)
+def r7(ctx: Ctx) -> None:
+    from ..terms import canon_pred, normalise
+
+    q = "FCNAgent.submit_orders"
+    f = ctx.func(q)
+    n = 0
+    for p in _paths(ctx, q):
+        if p.exit[0] != "return":
+            continue
+        n += 1
+        # comprehension form
+        def has_call(t: Term) -> bool:
+            return any(x[0] == "call" and key(x[1]) == "self.submit_orders_by_market" for x in subterms(t))
+
+        comps = [s_ for s_ in subterms(normalise(strip_ver(p.exit[1]))) if s_[0] == "comp" and (has_call(s_[2]) or any(has_call(g_[1]) for g_ in s_[3]))]
+        lps = [l for l in loops(p) if any(e.name == "submit_orders_by_market" for bp in l.paths for e in calls(bp))]
+        if comps:
+            c0 = comps[0]
+            g0 = c0[3][0]
+            okc = strip_ver(g0[1]) == ("sym", "markets") and all(_access_test(canon_pred(c)[0], canon_pred(c)[1], ("bound", g0[0][0])) for c in g0[2])
+            ctx.check(okc, f, f.node, "every given market is handed to the strategy", "[self.submit_orders_by_market(m) for m in markets]", short(c0)[:160])
+        elif lps:
+            l = lps[0]
+            el = ("sym", f"{l.target[0]}∈{l.loopid}")
+            ctx.check(strip_ver(l.iter) == ("sym", "markets"), f, l.node, "the loop runs over the markets the agent is given", "for market in markets", short(l.iter)[:100])
+            for bp in l.paths:
+                if bp.exit[0] == "raise":
+                    continue
+                called = [e for e in calls(bp) if e.name == "submit_orders_by_market"]
+                if called:
+                    continue
+                justified = any(_access_test(strip_ver(c), not pol, el) for c, pol, _ in bp.conds)
+                ctx.check(justified, f, l.node, "a market is skipped only because the agent cannot access it", "skip iff not is_market_accessible(market)", bp.describe()[:140])
+        else:
+            ctx.unrec(f, f.node, "every given market is handed to the strategy", "neither a loop nor a comprehension over the markets was found", short(p.exit[1])[:120])
+    ctx.require(n >= 1, f"{q}: no returning path")
